@@ -29,6 +29,8 @@ def eval_step(op, ins, p, entry="method"):
         kw = {}
         if "phase" in p:
             kw["phase"] = p["phase"]
+        if axes is None and not kw and p.get("prop"):
+            return [x.T]
         if entry == "function":
             return [sr.transpose(x, axes, **kw)]
         if entry == "autoray":
@@ -49,6 +51,8 @@ def eval_step(op, ins, p, entry="method"):
         kw = {}
         if "pd" in p:
             kw["phase_dual"] = p["pd"]
+        if not kw and p.get("prop"):
+            return [x.H]
         return [x.dagger(**kw)]
     if op == "squeeze":
         ax = p.get("axis")
@@ -104,6 +108,11 @@ def eval_step(op, ins, p, entry="method"):
         kw = {"preserve_array": True}
         if p.get("mode") is not None:
             kw["mode"] = p["mode"]
+        if p.get("via_default") and p.get("mode") is not None and not x.fermionic:
+            # the same mode selected through the default-mode context manager and mode=None
+            kw["mode"] = None
+            with sr.default_tensordot_mode(p["mode"]):
+                return [sr.tensordot(x, y, axes, **kw)]
         if entry == "autoray":
             return [ar.do("tensordot", x, y, axes, **kw)]
         return [sr.tensordot(x, y, axes, **kw)]
